@@ -75,6 +75,7 @@ type Interp struct {
 	watch        map[*Value]*watchInfo
 	goDepth      int
 	probing      int
+	recording    map[*Value][]*Value // cells written -> locks held at the first write (nil: not recording)
 	scratch      map[string]Value
 	curPos       token.Pos
 	callStack    []*ssa.Function
@@ -409,7 +410,24 @@ func (in *Interp) store(t types.Type, addr *Value, v Value) {
 		in.throw("invalid memory address or nil pointer dereference")
 	}
 	in.checkWatch(addr)
+	if in.recording != nil {
+		in.recordWrite(addr)
+	}
 	in.storeRaw(addr, v)
+}
+
+// recordWrite notes a write to a memory cell together with the locks held (rt.SharedWrites).
+func (in *Interp) recordWrite(addr *Value) {
+	if _, seen := in.recording[addr]; seen {
+		return
+	}
+	var held []*Value
+	for mu, ms := range in.mutexes {
+		if ms.writer || ms.readers > 0 {
+			held = append(held, mu)
+		}
+	}
+	in.recording[addr] = held
 }
 
 func (in *Interp) storeRaw(addr *Value, v Value) {
